@@ -107,7 +107,8 @@ def run(sc):
       break
     REF = core.make_data(mjm, m, {"nworld": nworld, "how": "make", "caps": ample})
     core.set_istate(mjm, m, REF, S)
-    mjw.step(m, REF)
+    with core.StageNeed() as tap:
+      mjw.step(m, REF)
     ref = core.snapshot(m, REF)
     if scen.capacity_overflow(ref):
       stats["skipped"]["ample_run_overflows"] = stats["skipped"].get("ample_run_overflows", 0) + 1
@@ -115,13 +116,17 @@ def run(sc):
     ref_lim = int(ref["overflow"].max()) & (core.OV_ITER | core.OV_LS)
     refv = [core.canon_view(ref, w) for w in range(nworld)]
     refraw = [core.world_view(ref, w) for w in range(nworld)]
-    need_nefc = [int(ref["nefc"][w]) for w in range(nworld)]
-    need_con = max(int(ref["_nacon_raw"]), int(ref["ncollision"]))
+    # need = maximum over every forward() inside the step (RK4 evaluates four states), not only the last one
+    need_nefc = [max(int(ref["nefc"][w]), int(tap.nefc[w]) if tap.nefc is not None else 0) for w in range(nworld)]
+    need_con = max(int(ref["_nacon_raw"]), int(ref["ncollision"]), tap.nacon, tap.ncollision)
+    stage_excess = tap.calls > 1 and (any(need_nefc[w] > int(ref["nefc"][w]) for w in range(nworld)) or need_con > max(int(ref["_nacon_raw"]), int(ref["ncollision"])))
+    if stage_excess:
+      fault("intermediate_stage_needs_more_than_final_stage")
     need_nnz = [0] * nworld
     if sparse:
       e = ref["efc"]
       for w in range(nworld):
-        n = need_nefc[w]
+        n = int(ref["nefc"][w])
         need_nnz[w] = int((e["J_rowadr"][w, :n] + e["J_rownnz"][w, :n]).max()) if n else 0
     rv = _rng.gen("vals", sc["value_seed"], p)
     for kind in sc["kinds"]:
@@ -171,7 +176,9 @@ def run(sc):
           if nk > c:
             want = {"njmax": NEFC, "naconmax": BROAD | NARROW | CCD, "njmax_nnz": NNZ | NEFC}[kind]
             if not (bits & want):
-              viols.append({"class": {"oracle": "silent_overflow", "clause": "bit_missing", "kind": kind, "relation": _relation(c, nk), "jacobian": "sparse" if sparse else "dense"},
+              final_need = {"njmax": int(ref["nefc"][w]), "naconmax": max(int(ref["_nacon_raw"]), int(ref["ncollision"])), "njmax_nnz": nk}[kind]
+              viols.append({"class": {"oracle": "silent_overflow", "clause": "bit_missing", "kind": kind, "relation": _relation(c, nk), "jacobian": "sparse" if sparse else "dense",
+                                      "only_intermediate_stage_overflows": bool(final_need <= c)},
                             "detail": {"probe": p, "world": w, "capacity": c, "need": nk, "overflow_bits": bits, "rows": rows, "permuted": permuted,
                                        "nefc_reported": int(got["nefc"][w]), "caps": {k: caps[k] for k in ("naconmax", "njmax", "njmax_nnz")}}})
               continue
